@@ -214,6 +214,19 @@ func c16StoryScenarios(tier string) []*Scenario {
 			})
 		}
 	}
+	// overlapping executions on one cache key: OnResultCached fires exactly for the stores
+	add("cache-overlap", []Spec{{Kind: KCache, Key: "a"}}, []ExeSpec{{Script: []Out{{V: 1, Dur: 20}}}, {Script: []Out{{V: 2, Dur: 5}}, StartAt: 5}, {Script: []Out{{V: 3}}, StartAt: 40}}, func(env *Env) string {
+		n := 0
+		for _, e := range env.Events {
+			if e.Policy == 0 && e.Name == "cached" {
+				n++
+			}
+		}
+		if sets := len(env.Caches[0].Sets); n != sets {
+			return fmt.Sprintf("OnResultCached fired %d times, the cache was written %d times", n, sets)
+		}
+		return ""
+	})
 	add("bulkhead-wait-async-cancelled", []Spec{bw}, []ExeSpec{{Script: ok, Async: true, CancelAsync: true, CancelAt: 30}}, refusals)
 	add("bulkhead-wait-timeout", []Spec{{Kind: KTimeout, Limit: 30}, bw}, []ExeSpec{{Script: ok}}, func(env *Env) string {
 		n := 0
